@@ -17,7 +17,10 @@ import time
 
 VERIF = os.path.dirname(os.path.abspath(__file__))
 REPO = os.environ.get("VERIF_REPO", "/repo")
-WORK = os.path.join(VERIF, ".work")
+# scratch root (overlays, binaries) and output root (evidence/, replays/): overridable so that a seeded change can be
+# examined in its own worktree (VERIF_REPO) without touching /repo, the committed evidence or a run in progress
+WORK = os.environ.get("VERIF_SCRATCH", os.path.join(VERIF, ".work"))
+OUT = os.environ.get("VERIF_OUT", VERIF)
 RTBASE = "pkg/zzverif"
 NCPU = int(os.environ.get("VERIF_JOBS", "16"))
 
@@ -195,7 +198,7 @@ def finish(pid, tier, level, results, t0, assumptions, rule, extra_cov=None, see
             if cov.get(k, 0) == 0:
                 cov.pop(k, None)
     # verdicts
-    os.makedirs(os.path.join(VERIF, "replays"), exist_ok=True)
+    os.makedirs(os.path.join(OUT, "replays"), exist_ok=True)
     seen_known, new = {}, []
     seen_keys = set()
     for v in viols:
@@ -216,7 +219,7 @@ def finish(pid, tier, level, results, t0, assumptions, rule, extra_cov=None, see
     vlines = []
     for v in new:
         h = hashlib.sha1((pid + v["key"]).encode()).hexdigest()[:10]
-        path = os.path.join(VERIF, "replays", "%s-%s.json" % (pid, h))
+        path = os.path.join(OUT, "replays", "%s-%s.json" % (pid, h))
         with open(path, "w") as f:
             json.dump({"property": pid, "key": v["key"], "what": v["what"], "scenario": v.get("scenario"), "replay": v.get("replay")}, f, indent=1)
         print("VIOLATION property=%s replay=%s" % (pid, path))
@@ -227,9 +230,14 @@ def finish(pid, tier, level, results, t0, assumptions, rule, extra_cov=None, see
     cov["violation_list"] = vlines
     ev = {"property_id": pid, "tier": tier, "seed": seed, "level": level, "coverage": cov, "assumptions": assumptions,
           "wall_s": round(time.time() - t0, 2), "violations": len(new)}
-    os.makedirs(os.path.join(VERIF, "evidence"), exist_ok=True)
-    with open(os.path.join(VERIF, "evidence", pid + ".json"), "w") as f:
+    os.makedirs(os.path.join(OUT, "evidence"), exist_ok=True)
+    with open(os.path.join(OUT, "evidence", pid + ".json"), "w") as f:
         json.dump(ev, f, indent=1)
+    if tier == "thorough":
+        # keep the last thorough run next to the per-change evidence (which the next quick run overwrites)
+        os.makedirs(os.path.join(OUT, "evidence", "thorough"), exist_ok=True)
+        with open(os.path.join(OUT, "evidence", "thorough", pid + ".json"), "w") as f:
+            json.dump(ev, f, indent=1)
     print("%s %s: evaluations=%d states=%s transitions=%s exhaustive=%s violations=%d known=%d wall=%.1fs" % (
         pid, tier, cov["evaluations"], cov.get("states", "-"), cov.get("transitions", "-"), cov["exhaustive"], len(new), len(seen_known), time.time() - t0))
     sys.stdout.flush()
